@@ -175,20 +175,648 @@ def gen_cases(rng, tier):
     return out
 
 
+# ----------------------------------------------------------------------------------------------
+# corpus: one witness per known finding (the same specs are the Gallina witnesses of coq/DialectCorr.v) + positives
+# ----------------------------------------------------------------------------------------------
+def _T(n, alias=None):
+    return [n, [], alias]
+
+
+def _F(n, alias=None):
+    return ["field", n, None, alias]
+
+
+def _sel(cls, tbl, items, **kw):
+    d = {"k": "sel", "cls": cls, "from": [["t", _T(tbl)]], "joins": [], "selects": items}
+    d.update(kw)
+    return d
+
+
+def witnesses():
+    W = {}
+    one = ["t", ["vali", 1, None]]
+    W["w_fn_alias"] = _sel("SnowflakeQuery", "t", [["func", "COALESCE", [["sub", _sel("Query", "u", [["t", _F("b", "bb")]])], one], None]])
+    W["w_fn_as"] = _sel("Query", "t", [["func", "COALESCE", [["sub", _sel("ClickHouseQuery", "u", [["t", _F("b", "bb")]])], one], None]])
+    W["w_qalias"] = {"k": "sel", "cls": "MySQLQuery", "from": [["q", _sel("PostgreSQLQuery", "u", [["t", _F("b")]], alias="s")]],
+                     "joins": [], "selects": [["t", ["star", None]]]}
+    W["w_setop_mixed"] = {"k": "set", "base": _sel("MySQLQuery", "t", [["t", _F("a", "x")]]),
+                          "ops": [["union", _sel("PostgreSQLQuery", "u", [["t", _F("b", "y")]])]]}
+    W["w_cte"] = {"k": "sel", "cls": "MySQLQuery", "with": [["cte", _sel("MySQLQuery", "u", [["t", _F("b")]])]],
+                  "from": [["a", "cte"]], "joins": [], "selects": [["t", ["star", None]]]}
+    W["w_crit_alias"] = _sel("Query", "t", [["t", ["basic", "eq", _F("a"), _F("b"), "crit"]]])
+    W["w_setop_order"] = {"k": "set", "base": _sel("SnowflakeQuery", "t", [["t", _F("a", "x")]]),
+                          "ops": [["union", _sel("SnowflakeQuery", "u", [["t", _F("b", "x")]])]], "orderby": [[_F("a", "x"), None]]}
+    W["w_fn_gba"] = _sel("OracleQuery", "t", [["func", "COALESCE", [["sub", _sel("Query", "u", [["t", _F("b", "bb")]],
+                                                                                groupby=[["t", _F("b", "bb")]])], one], None]])
+    W["w_fn_literal"] = _sel("Query", "t", [["t", ["func", "COALESCE", [_F("a"), ["vals", "x", None]], None]], ["t", ["vals", "y", None]]])
+    W["w_fn_term_alias"] = _sel("SnowflakeQuery", "t", [["t", ["func", "COALESCE", [["vals", "x", "y"], ["vali", 1, None]], None]],
+                                                        ["t", ["vals", "x", "y"]]])
+    W["w_qualifier"] = {"k": "sel", "cls": "SnowflakeQuery", "from": [["t", _T("t", "ta")]], "joins": [],
+                        "selects": [["t", ["field", "a", ["#0", [], None], None]]]}
+    W["p_nested"] = {
+        "k": "sel", "cls": "MySQLQuery",
+        "from": [["t", _T("t")],
+                 ["q", {"k": "sel", "cls": "VerticaQuery",
+                        "from": [["t", _T("u")], ["q", _sel("OracleQuery", "v", [["t", _F("c", "cc")]],
+                                                             where=["t", ["basic", "eq", _F("c"), ["vals", "it's", None], None]])]],
+                        "joins": [], "selects": [["t", ["field", "b", ["#0", [], None], "bb"]],
+                                                 ["t", ["func", "F", [["field", "c", ["#1", [], None], None]], None]]]}]],
+        "joins": [["left", ["q", _sel("SnowflakeQuery", "w", [["t", _F("d")]])],
+                   ["on", ["t", ["basic", "eq", ["field", "a", ["#0", [], None], None], ["field", "d", ["#2", [], None], None], None]]]]],
+        "selects": [["t", ["field", "a", ["#0", [], None], "al"]],
+                    ["t", ["case", [[["basic", "gt", ["field", "a", ["#0", [], None], None], ["vali", 1, None], None], ["vals", "big", None]]],
+                           ["vals", "small", None], "sz"]]],
+        "where": ["in", ["field", "a", ["#0", [], None], None], _sel("ClickHouseQuery", "z", [["t", _F("e")]]), False],
+        "groupby": [["t", ["field", "a", ["#0", [], None], "al"]]], "limit": 3}
+    return W
+
+
+W_KW = {"w_fn_literal": {"q": "`", "rest": ['"', None, False]}}
+
+
 def corpus():
-    return []
+    out = []
+    for name, spec in witnesses().items():
+        out.append({"spec": spec, "relabel": None, "kw": W_KW.get(name), "name": name})
+    W = witnesses()
+    # the same specifications built by ONE class at every level (the deviations disappear, except the class-independent ones)
+    for name in ("w_fn_alias", "w_qalias", "w_setop_mixed", "p_nested"):
+        for c in ("Query", "MySQLQuery", "PostgreSQLQuery", "SnowflakeQuery", "ClickHouseQuery", "OracleQuery"):
+            out.append({"spec": W[name], "relabel": c, "kw": None, "name": name + "@" + c})
+    out += vendor_cases()
+    return out
+
+
+# ----------------------------------------------------------------------------------------------
+# oracle part 1: SQL lexer, sentinels
+# ----------------------------------------------------------------------------------------------
+QUOTES = "\"'`"
+_WORD = re.compile(r"[A-Za-z_][A-Za-z0-9_$]*")
+_NUM = re.compile(r"\d+(\.\d+)?")
+
+
+def lex(text):
+    """-> list of (kind, value, quote): kind in word / num / str (any quoted run: value is the unquoted content,
+    quote the delimiter) / punct"""
+    out, i, n = [], 0, len(text)
+    while i < n:
+        ch = text[i]
+        if ch.isspace():
+            i += 1
+            continue
+        if ch in QUOTES:
+            j, buf = i + 1, []
+            while j < n:
+                if text[j] == ch:
+                    if j + 1 < n and text[j + 1] == ch:
+                        buf.append(ch)
+                        j += 2
+                        continue
+                    break
+                buf.append(text[j])
+                j += 1
+            out.append(("q", "".join(buf), ch))
+            i = j + 1
+            continue
+        m = _WORD.match(text, i)
+        if m:
+            out.append(("word", m.group(0), None))
+            i = m.end()
+            continue
+        m = _NUM.match(text, i)
+        if m:
+            out.append(("num", m.group(0), None))
+            i = m.end()
+            continue
+        out.append(("punct", ch, None))
+        i += 1
+    return out
+
+
+ROLE_OF = {"zt": "ident", "zh": "ident", "zc": "ident", "za": "alias", "zb": "criterion-alias", "zq": "query-alias",
+           "zw": "cte-name", "zs": "string"}
+_SENT = re.compile(r"^(zt|zh|zc|za|zb|zq|zw|zs)(\d+)$")
+
+
+class Sentinels:
+    """rebuilds a spec with a fresh sentinel name at every naming position; meta[name] = (role, path kind, inner class)"""
+
+    def __init__(self):
+        self.n = 0
+        self.meta = {}
+
+    def new(self, prefix, path, cls, fn):
+        self.n += 1
+        name = "%s%d" % (prefix, self.n)
+        if fn == "term":
+            kind = "funcarg-term"
+        elif "funcarg" in path:
+            kind = "funcarg"
+        elif not path:
+            kind = "top"
+        elif path == ["setop"]:
+            kind = "setop-top"
+        else:
+            kind = path[-1]
+        self.meta[name] = (ROLE_OF[prefix], kind, cls)
+        return name
+
+    # --- terms ---
+    def tref(self, t, st):
+        if t is None:
+            return None
+        name, schema, alias = t
+        if name.startswith("#"):
+            return t
+        return [self.new("zt", st["path"], st["cls"], st["fn"]), [self.new("zh", st["path"], st["cls"], st["fn"]) for _ in (schema or [])],
+                None if alias is None else self.new("za", st["path"], st["cls"], st["fn"])]
+
+    def alias(self, a, st, prefix="za"):
+        if a is None:
+            return None
+        key = (prefix, a)
+        if key not in st["amap"]:
+            st["amap"][key] = self.new(prefix, st["path"], st["cls"], st["fn"])
+        return st["amap"][key]
+
+    def term(self, t, st):
+        k = t[0]
+        fnst = dict(st, fn=("term" if st["fn"] is None else st["fn"]))
+        if k == "field":
+            return ["field", self.new("zc", st["path"], st["cls"], st["fn"]), self.tref(t[2], st), self.alias(t[3], st)]
+        if k == "star":
+            return ["star", self.tref(t[1], st)]
+        if k == "vals":
+            return ["vals", self.new("zs", st["path"], st["cls"], st["fn"]), self.alias(t[2], st)]
+        if k in ("vali", "valf", "vald"):
+            return [k, t[1], self.alias(t[2], st)]
+        if k == "valb":
+            return ["valb", t[1], t[2], self.alias(t[3], st)]
+        if k in ("valnone", "null"):
+            return [k, self.alias(t[1], st)]
+        if k == "lit":
+            return ["lit", t[1], self.alias(t[2], st)]
+        if k == "param":
+            return t
+        if k == "neg":
+            return ["neg", self.term(t[1], st)]
+        if k == "arith":
+            return ["arith", t[1], self.term(t[2], st), self.term(t[3], st), self.alias(t[4], st)]
+        if k == "basic":
+            return ["basic", t[1], self.term(t[2], st), self.term(t[3], st), self.alias(t[4], st, "zb")]
+        if k == "cplx":
+            return ["cplx", t[1], self.term(t[2], st), self.term(t[3], st), self.alias(t[4], st)]
+        if k == "in":
+            return ["in", self.term(t[1], st), self.term(t[2], st), t[3], self.alias(t[4], st)]
+        if k == "between":
+            return ["between", self.term(t[1], st), self.term(t[2], st), self.term(t[3], st), self.alias(t[4], st)]
+        if k == "bitand":
+            return ["bitand", self.term(t[1], st), t[2], self.alias(t[3], st)]
+        if k in ("isnull", "notnull", "not", "all"):
+            return [k, self.term(t[1], st), self.alias(t[2], st)]
+        if k == "case":
+            return ["case", [[self.term(c, st), self.term(v, st)] for c, v in t[1]], None if t[2] is None else self.term(t[2], st),
+                    self.alias(t[3], st)]
+        if k == "func":
+            return ["func", t[1], [self.term(a, fnst) for a in t[2]], self.alias(t[3], st)]
+        if k == "cast":
+            return ["cast", self.term(t[1], fnst), t[2], self.alias(t[3], st)]
+        if k in ("tuple", "array"):
+            return [k, [self.term(a, st) for a in t[1]], self.alias(t[2], st)]
+        return t   # empty, sub
+
+    # --- items / statements ---
+    def item(self, it, st):
+        k = it[0]
+        if k == "t":
+            return ["t", self.term(it[1], st)]
+        if k == "sub":
+            return ["sub", self.query(it[1], st["path"] + ["select-sub"], st)]
+        if k == "in":
+            return ["in", self.term(it[1], st), self.query(it[2], st["path"] + ["in"], st), it[3]]
+        if k == "exists":
+            return ["exists", self.query(it[1], st["path"] + ["exists"], st), it[2]]
+        if k == "cmp":
+            return ["cmp", it[1], self.term(it[2], st), self.query(it[3], st["path"] + ["cmp"], st)]
+        if k == "func":
+            fnst = dict(st, fn=("term" if st["fn"] is None else st["fn"]))
+            args = []
+            for a in it[2]:
+                if a[0] == "t":
+                    args.append(["t", self.term(a[1], fnst)])
+                else:
+                    args.append(self.item(a, dict(st, path=st["path"] + ["funcarg"])))
+            return ["func", it[1], args, self.alias(it[3], st)]
+        if k == "cplx":
+            return ["cplx", it[1], self.item(it[2], st), self.item(it[3], st)]
+        if k == "not":
+            return ["not", self.item(it[1], st)]
+        return it
+
+    def source(self, s, st, edge, cte):
+        if s[0] == "t":
+            return ["t", self.tref(s[1], st)]
+        if s[0] == "q":
+            return ["q", self.query(s[1], st["path"] + [edge], st)]
+        return ["a", cte.get(s[1], s[1])]
+
+    def query(self, s, path, parent=None):
+        k = s["k"]
+        if k == "set":
+            top = top_cls_name(s)
+            base = self.query(s["base"], path + ["setop"], parent)
+            st = {"path": path, "cls": top, "fn": None, "amap": dict(self._last_amap)}
+            out = {"k": "set", "base": base, "ops": [[o, self.query(q, path + ["setop"], parent)] for o, q in s["ops"]]}
+            if s.get("orderby"):
+                out["orderby"] = [[self.term(t, st), d] for t, d in s["orderby"]]
+            for key in ("limit", "offset"):
+                if s.get(key) is not None:
+                    out[key] = s[key]
+            if s.get("alias") is not None:
+                out["alias"] = self.new("zq", path, top, None)
+            return out
+        cls = s["cls"]
+        st = {"path": path, "cls": cls, "fn": None, "amap": {}}
+        out = {"k": k, "cls": cls}
+        if k == "sel":
+            cte = {}
+            if s.get("with"):
+                out["with"] = []
+                for name, sub in s["with"]:
+                    cte[name] = self.new("zw", path, cls, None)
+                    out["with"].append([cte[name], self.query(sub, path + ["with"], st)])
+            out["from"] = [self.source(x, st, "from", cte) for x in s.get("from", [])]
+            out["joins"] = []
+            for how, src, cond in s.get("joins", []):
+                src2 = self.source(src, st, "join", cte)
+                if cond[0] == "on":
+                    cond2 = ["on", self.item(cond[1], st)]
+                elif cond[0] == "using":
+                    cond2 = ["using", [self.new("zc", path, cls, None) for _ in cond[1]]]
+                else:
+                    cond2 = cond
+                out["joins"].append([how, src2, cond2])
+            out["selects"] = [self.item(i, st) for i in s.get("selects", [])]
+            for key in ("where", "having"):
+                if s.get(key) is not None:
+                    out[key] = self.item(s[key], st)
+            if s.get("groupby"):
+                out["groupby"] = [self._ref_item(g, s, out, st) for g in s["groupby"]]
+            if s.get("orderby"):
+                out["orderby"] = [[self._ref_item(i, s, out, st), d] for i, d in s["orderby"]]
+            for key in ("distinct", "limit", "offset", "for_update"):
+                if s.get(key) is not None:
+                    out[key] = s[key]
+            if s.get("alias") is not None:
+                out["alias"] = self.new("zq", path, cls, None)
+            self._last_amap = st["amap"]
+            return out
+        if k == "ins":
+            out["into"] = self.tref(s["into"], st)
+            out["columns"] = [self.new("zc", path, cls, None) for _ in s.get("columns", [])]
+            out["replace"] = s.get("replace", False)
+            if s.get("rows"):
+                out["rows"] = [[self.item(i, st) for i in row] for row in s["rows"]]
+            if s.get("select") is not None:
+                sel = s["select"]
+                o2 = {"from": [self.source(x, st, "from", {}) for x in sel.get("from", [])],
+                      "selects": [self.item(i, st) for i in sel["selects"]]}
+                if sel.get("where") is not None:
+                    o2["where"] = self.item(sel["where"], st)
+                out["select"] = o2
+            return out
+        if k == "upd":
+            out["table"] = self.tref(s["table"], st)
+            out["from"] = [self.source(x, st, "from", {}) for x in s.get("from", [])]
+            out["joins"] = []
+            out["sets"] = [[self.new("zc", path, cls, None), self.item(v, st)] for _, v in s.get("sets", [])]
+            if s.get("where") is not None:
+                out["where"] = self.item(s["where"], st)
+            if s.get("limit") is not None:
+                out["limit"] = s["limit"]
+            return out
+        if k == "del":
+            out["from"] = [self.source(x, st, "from", {}) for x in s.get("from", [])]
+            if s.get("where") is not None:
+                out["where"] = self.item(s["where"], st)
+            return out
+        raise ValueError(k)
+
+    _last_amap = {}
+
+    def _ref_item(self, g, s, out, st):
+        """a GROUP BY / ORDER BY item that is literally one of the select items keeps referring to it"""
+        for orig, new in zip(s.get("selects", []), out["selects"]):
+            if g == orig:
+                return new
+        return self.item(g, st)
+
+
+def sentinelize(spec):
+    sn = Sentinels()
+    return sn.query(spec, []), sn.meta
+
+
+def class_conv(cls_name):
+    b = qclass(cls_name)._builder()
+    qa = b.ALIAS_QUOTE_CHAR if b.QUERY_ALIAS_QUOTE_CHAR is None else b.QUERY_ALIAS_QUOTE_CHAR
+    return {"q": b.QUOTE_CHAR, "sq": b.SECONDARY_QUOTE_CHAR, "aq": b.ALIAS_QUOTE_CHAR, "qa": qa, "as": bool(b.as_keyword)}
+
+
+def kw_conv(cls_name, kw):
+    c = class_conv(cls_name)
+    if "q" in kw:
+        c["q"] = kw["q"]
+    if "rest" in kw:
+        c["sq"], c["aq"], c["as"] = kw["rest"]
+        c["qa"] = None      # reported separately: the query-alias quote always comes from the sub-query's class
+    return c
+
+
+def expected_quote(role, conv):
+    if role == "ident" or role == "cte-name":
+        return conv["q"] or None
+    if role in ("alias", "criterion-alias", "alias-qualifier"):
+        return (conv["aq"] or conv["q"]) or None
+    if role == "query-alias":
+        return (conv["qa"] or conv["q"]) or None
+    if role == "string":
+        return conv["sq"] or None
+    raise ValueError(role)
+
+
+def sentinel_report(text, meta, conv, outer, check_qalias=True):
+    """every occurrence of every sentinel must carry the outer convention's quote for its role"""
+    toks = lex(text)
+    out = []
+    for i, (kind, val, quote) in enumerate(toks):
+        if kind not in ("q", "word") or val not in meta:
+            continue
+        role, pk, inner = meta[val]
+        nxt = toks[i + 1] if i + 1 < len(toks) else None
+        prv = toks[i - 1] if i > 0 else None
+        if role == "alias" and nxt is not None and nxt[0] == "punct" and nxt[1] == ".":
+            role = "alias-qualifier"
+        if role == "query-alias" and (not check_qalias or (nxt is not None and nxt[0] == "punct" and nxt[1] == ".")):
+            continue
+        exp = expected_quote(role, conv)
+        if quote != exp:
+            out.append({"signature": ["C07", outer, inner, pk, role],
+                        "what": "%s sentinel %s is written %s, the outer class %s writes this role %s; statement: %s" % (
+                            role, val, _q(quote), outer, _q(exp), text[:400])})
+        # AS keyword at definition sites
+        if role in ("alias", "criterion-alias", "query-alias") and prv is not None:
+            if prv[0] == "word" and prv[1].upper() == "AS":
+                has_as = True
+            elif (prv[0] == "word" and prv[1].upper() == "BY") or (prv[0] == "punct" and prv[1] in ",("):
+                has_as = None
+            else:
+                has_as = False
+            if has_as is not None and has_as != conv["as"]:
+                out.append({"signature": ["C07", outer, inner, pk, "as-keyword"],
+                            "what": "alias %s is introduced %s AS, the outer class %s writes aliases %s AS; statement: %s" % (
+                                val, "with" if has_as else "without", outer, "with" if conv["as"] else "without", text[:400])})
+    return out
+
+
+def _q(x):
+    return "bare" if x is None else "inside %s" % x
+
+
+# ----------------------------------------------------------------------------------------------
+# oracle part 2: devendored token sequences
+# ----------------------------------------------------------------------------------------------
+SETOPS = {"UNION", "INTERSECT", "EXCEPT", "MINUS"}
+GROUP_END = {"HAVING", "ORDER", "LIMIT", "OFFSET", "FETCH", "FOR", "UNION", "INTERSECT", "EXCEPT", "MINUS"}
+
+
+def devendor(text, kind):
+    """quote-erased token values with the documented vendor segments removed"""
+    t = [(k, v) for k, v, _ in lex(text)]
+    U = [v.upper() if k == "word" else None for k, v in t]
+    n = len(t)
+    drop = [False] * n
+    # matching parentheses
+    match, stack = {}, []
+    for i, (k, v) in enumerate(t):
+        if k == "punct" and v == "(":
+            stack.append(i)
+        elif k == "punct" and v == ")" and stack:
+            j = stack.pop()
+            match[j] = i
+    # set-operation operand parentheses
+    for i, j in match.items():
+        if i + 1 < n and U[i + 1] in ("SELECT", "WITH"):
+            before = U[i - 1] if i > 0 else None
+            after = U[j + 1] if j + 1 < n else None
+            if before in SETOPS or before == "ALL" or after in SETOPS:
+                drop[i] = drop[j] = True
+    depth = 0
+    i = 0
+    while i < n:
+        k, v = t[i]
+        if k == "punct" and v == "(":
+            depth += 1
+        elif k == "punct" and v == ")":
+            depth -= 1
+        u = U[i]
+        if u == "AS":
+            drop[i] = True
+        elif u == "LIMIT" and i + 1 < n and t[i + 1][0] == "num":
+            drop[i] = drop[i + 1] = True
+        elif u == "OFFSET" and i + 1 < n and t[i + 1][0] == "num":
+            drop[i] = drop[i + 1] = True
+            if i + 2 < n and U[i + 2] == "ROWS":
+                drop[i + 2] = True
+        elif u == "FETCH" and i + 4 < n and U[i + 1] == "NEXT":
+            for j in range(i, i + 5):
+                drop[j] = True
+        elif u == "GROUP" and i + 1 < n and U[i + 1] == "BY":
+            d0, j = depth, i + 2
+            dd = depth
+            while j < n:
+                kk, vv = t[j]
+                if kk == "punct" and vv == "(":
+                    dd += 1
+                elif kk == "punct" and vv == ")":
+                    if dd == d0:
+                        break
+                    dd -= 1
+                elif dd == d0 and U[j] in GROUP_END:
+                    break
+                drop[j] = True
+                j += 1
+        elif u == "ARRAY" and i + 1 < n and t[i + 1] == ("punct", "["):
+            drop[i] = True
+        elif k == "q" and v == "{}":
+            t[i] = ("punct", "[]")
+        if kind in ("upd", "del") and depth == 0 and u in ("ALTER", "TABLE", "UPDATE", "SET", "DELETE", "FROM"):
+            drop[i] = True
+        i += 1
+    out = []
+    for i, (k, v) in enumerate(t):
+        if drop[i]:
+            continue
+        if out and out[-1] == "[" and v == "]":
+            out[-1] = "[]"
+            continue
+        out.append(v)
+    return out
+
+
+def first_diff(a, b):
+    for i, (x, y) in enumerate(zip(a, b)):
+        if x != y:
+            return i, x, y
+    if len(a) != len(b):
+        i = min(len(a), len(b))
+        return i, (a[i] if i < len(a) else "<end>"), (b[i] if i < len(b) else "<end>")
+    return None
+
+
+# ----------------------------------------------------------------------------------------------
+# oracle part 3: vendor-only clauses and dialect-keyed literal forms (implementation only, no Gallina model)
+# ----------------------------------------------------------------------------------------------
+INTERVAL_FORM = {"MySQLQuery": "expr-quoted", "OracleQuery": "expr-quoted"}   # INTERVAL '1' DAY; the others INTERVAL '1 DAY'
+ARRAY_FORM = {"PostgreSQLQuery": "ARRAY[", "RedshiftQuery": "ARRAY["}          # the others: [
+
+
+def vendor_cases():
+    out = []
+    for c in CLS_NAMES:
+        for inner in ("Query", "MySQLQuery", "PostgreSQLQuery", c):
+            out.append({"vendor": "forms", "cls": c, "inner": inner})
+    out.append({"vendor": "mysql-dup", "cls": "MySQLQuery"})
+    out.append({"vendor": "mysql-for-update", "cls": "MySQLQuery"})
+    out.append({"vendor": "pg-conflict", "cls": "PostgreSQLQuery"})
+    out.append({"vendor": "pg-distinct-on", "cls": "PostgreSQLQuery"})
+    out.append({"vendor": "pg-for-update", "cls": "PostgreSQLQuery"})
+    out.append({"vendor": "mssql-top", "cls": "MSSQLQuery"})
+    out.append({"vendor": "clickhouse-extras", "cls": "ClickHouseQuery"})
+    out.append({"vendor": "sqlite-bool", "cls": "SQLLiteQuery"})
+    return out
+
+
+def run_vendor(case):
+    from pypika import Table, Field
+    from pypika.terms import Array, Interval, Function, Values
+    Q = qclass(case["cls"])
+    v = case["vendor"]
+    meta = {}
+
+    def reg(name, role, kind="top", inner=None):
+        meta[name] = (role, kind, inner or case["cls"])
+        return name
+    t = Table(reg("zt1", "ident"))
+    u = Table(reg("zt2", "ident"))
+    if v == "forms":
+        I = qclass(case["inner"])
+        iv = Interval(days=1)
+        sub = I.from_(u).select(iv, Array(Field(reg("zc3", "ident", "select-sub", case["inner"])), reg("zs4", "string", "select-sub", case["inner"])))
+        q = Q.from_(t).select(iv, Function("F", iv, Array(1, 2)), Array(t.field(reg("zc5", "ident")), reg("zs6", "string")), sub) \
+            .where(t.field(reg("zc7", "ident")) > Interval(weeks=1))
+    elif v == "mysql-dup":
+        q = Q.into(t).insert(1, reg("zs3", "string")).on_duplicate_key_update(t.field(reg("zc4", "ident")), reg("zs5", "string")) \
+            .on_duplicate_key_update(reg("zc6", "ident"), Values(t.field(reg("zc7", "ident"))))
+    elif v in ("mysql-for-update", "pg-for-update"):
+        q = Q.from_(t).select(t.field(reg("zc3", "ident"))).for_update(of=(reg("zt4", "ident"),))
+    elif v == "pg-conflict":
+        q = Q.into(t).insert(1, reg("zs3", "string")).on_conflict(t.field(reg("zc4", "ident"))) \
+            .do_update(t.field(reg("zc5", "ident")), reg("zs6", "string")).do_update(reg("zc9", "ident")) \
+            .where(t.field(reg("zc10", "ident")) == reg("zs11", "string")) \
+            .returning(t.field(reg("zc7", "ident")), reg("zc8", "ident"))
+    elif v == "pg-distinct-on":
+        q = Q.from_(t).select(t.field(reg("zc3", "ident")).as_(reg("za6", "alias"))).distinct_on(t.field(reg("zc4", "ident")), reg("zc5", "ident"))
+    elif v == "mssql-top":
+        q = Q.from_(t).select(t.field(reg("zc3", "ident")).as_(reg("za4", "alias"))).top(3)
+    elif v == "clickhouse-extras":
+        q = Q.from_(t).select(t.field(reg("zc3", "ident")).as_(reg("za6", "alias"))).final().sample(10) \
+            .limit_by(2, t.field(reg("zc4", "ident")), reg("zc5", "ident"))
+    elif v == "sqlite-bool":
+        q = Q.from_(t).select(True, t.field(reg("zc3", "ident")) == False).where(t.field(reg("zc4", "ident")) == True)   # noqa: E712
+        q2 = Q.into(t).insert(True, False)
+        q3 = Q.update(t).set(reg("zc5", "ident"), True)
+        return {"text": str(q), "extra": [str(q2), str(q3)], "meta": meta}
+    else:
+        raise ValueError(v)
+    return {"text": str(q), "meta": meta}
+
+
+def vendor_oracle(case, outcome):
+    cls, v = case["cls"], case["vendor"]
+    text = outcome["text"]
+    meta = {k: tuple(x) for k, x in outcome["meta"].items()}
+    out = sentinel_report(text, meta, class_conv(cls), cls)
+    for x in out:
+        x["signature"] = x["signature"][:3] + ["vendor:" + v, x["signature"][4]]
+    if v == "forms":
+        inner = case["inner"]
+        forms = set(re.findall(r"INTERVAL '(\d+)( [A-Z]+)?'( [A-Z]+)?", text))
+        want = INTERVAL_FORM.get(cls, "unit-quoted")
+        for num, inside, outside in forms:
+            got = "expr-quoted" if outside and not inside else "unit-quoted"
+            if got != want:
+                out.append({"signature": ["C07", cls, inner, "vendor:forms", "interval-form"],
+                            "what": "INTERVAL rendered %s under %s (documented form: %s): %s" % (got, cls, want, text)})
+        n_int = len(re.findall(r"INTERVAL '", text))
+        if n_int != 5:
+            out.append({"signature": ["C07", cls, inner, "vendor:forms", "interval-count"], "what": "expected 5 INTERVAL literals: " + text})
+        want_a = ARRAY_FORM.get(cls, "[")
+        got_arr = re.findall(r"(ARRAY)?\[", text)
+        for g in got_arr:
+            form = "ARRAY[" if g else "["
+            if form != want_a:
+                out.append({"signature": ["C07", cls, inner, "vendor:forms", "array-form"],
+                            "what": "array literal written %s under %s (documented: %s): %s" % (form, cls, want_a, text)})
+        if len(got_arr) != 3:
+            out.append({"signature": ["C07", cls, inner, "vendor:forms", "array-count"], "what": "expected 3 array literals: " + text})
+    if v == "sqlite-bool":
+        texts = [text] + outcome.get("extra", [])
+        labels = ["select+where", "insert", "update-set"]
+        forms = {}
+        for lab, tx in zip(labels, texts):
+            for kind, val, _ in lex(tx):
+                if kind == "word" and val.lower() in ("true", "false"):
+                    forms.setdefault("word", []).append(lab)
+                if kind == "num" and val in ("0", "1") and lab != "insert":
+                    pass
+        # the select list / SET value use the SQLite wrapper (1 / 0); comparisons and INSERT VALUES the generic words
+        if "word" in forms:
+            for lab in sorted(set(forms["word"])):
+                out.append({"signature": ["C07", cls, cls, "vendor:sqlite-bool", "boolean-form:" + lab],
+                            "what": "SQLLiteQuery writes booleans as 1/0 in the select list but as true/false in %s: %s" % (lab, " ; ".join(texts))})
+    return out
 
 
 # ----------------------------------------------------------------------------------------------
 # implementation
 # ----------------------------------------------------------------------------------------------
 def run_impl(case):
+    if "vendor" in case:
+        try:
+            return run_vendor(case)
+        except Exception as e:  # noqa
+            return {"text": "!" + type(e).__name__, "meta": {}}
     spec = relabel_spec(case["spec"], case.get("relabel"))
-    return {"text": render(spec, case.get("kw"))}
+    kw = case.get("kw")
+    out = {"text": render(spec, kw)}
+    # oracle observations (independent of the model): the same specification with sentinel names
+    try:
+        sspec, meta = sentinelize(spec)
+        out["meta"] = {k: list(v) for k, v in meta.items()}
+        out["sent_text"] = render(sspec, kw)
+        if kw is None:
+            per = {}
+            for c in CLS_NAMES:
+                per[c] = render(relabel_spec(sspec, c))
+            out["per_class"] = per
+    except Exception as e:  # noqa
+        out["sent_error"] = "%s: %s" % (type(e).__name__, e)
+    return out
 
 
 def to_coq(case, outcome):
-    if "text" not in outcome:
+    if "vendor" in case or "text" not in outcome:
         return None
     rl = case.get("relabel")
     kw = case.get("kw")
@@ -197,15 +825,141 @@ def to_coq(case, outcome):
 
 
 def oracle(case, outcome):
-    return []
+    if "vendor" in case:
+        if outcome.get("text", "!").startswith("!"):
+            return [{"signature": ["C07", case["cls"], case["cls"], "vendor:" + case["vendor"], "exception"],
+                     "what": "vendor statement does not render: %s" % outcome.get("text")}]
+        return vendor_oracle(case, outcome)
+    if "sent_error" in outcome:
+        raise RuntimeError(outcome["sent_error"])
+    if "sent_text" not in outcome or outcome["sent_text"].startswith("!"):
+        return []
+    meta = {k: tuple(v) for k, v in outcome["meta"].items()}
+    spec = relabel_spec(case["spec"], case.get("relabel"))
+    outer = top_cls_name(spec)
+    kw = case.get("kw")
+    out = []
+    if kw is None:
+        out += sentinel_report(outcome["sent_text"], meta, class_conv(outer), outer)
+    else:
+        conv = kw_conv(outer, kw)
+        if "rest" in kw:
+            out += sentinel_report(outcome["sent_text"], meta, conv, outer + "+kwargs", check_qalias=False)
+        else:
+            # only quote_char was given: identifiers must follow it (aliases / literals keep each class's own defaults)
+            out += [v for v in sentinel_report(outcome["sent_text"], meta, conv, outer + "+kwargs", check_qalias=False)
+                    if v["signature"][4] == "ident"]
+    # the same specification built by each class: quoting per class, and devendored token sequences against the generic class
+    per = outcome.get("per_class") or {}
+    ref = per.get("Query")
+    kind = spec["k"]
+    for c, txt in per.items():
+        if txt.startswith("!"):
+            continue
+        cmeta = {k: (r, pk, c) for k, (r, pk, _) in meta.items()}
+        out += sentinel_report(txt, cmeta, class_conv(c), c)
+        if ref is not None and not ref.startswith("!") and c != "Query":
+            d = first_diff(devendor(txt, kind), devendor(ref, kind))
+            if d is not None:
+                out.append({"signature": ["C07", c, "Query", "tokens", "sequence"],
+                            "what": "devendored token sequences differ at position %d: %s writes %r, Query writes %r; %s  ||  %s" % (
+                                d[0], c, d[1], d[2], txt[:300], ref[:300])})
+    # the labelled (mixed-class) rendering against the uniform rendering by its outer class
+    if kw is None and outer in per and not per[outer].startswith("!"):
+        d = first_diff(devendor(outcome["sent_text"], kind), devendor(per[outer], kind))
+        if d is not None:
+            out.append({"signature": ["C07", outer, "mixed", "tokens", "sequence"],
+                        "what": "devendored tokens of the mixed-class statement differ from the single-class one at %d: %r vs %r; %s  ||  %s" % (
+                            d[0], d[1], d[2], outcome["sent_text"][:300], per[outer][:300])})
+    # de-duplicate by signature
+    seen, uniq = set(), []
+    for v in out:
+        k = json.dumps(v["signature"])
+        if k not in seen:
+            seen.add(k)
+            uniq.append(v)
+    return uniq
+
+
+def _classes(spec, acc=None, depth=0):
+    acc = acc if acc is not None else set()
+    if isinstance(spec, dict):
+        if "cls" in spec:
+            acc.add(spec["cls"])
+        for v in spec.values():
+            _classes(v, acc)
+    elif isinstance(spec, list):
+        for v in spec:
+            _classes(v, acc)
+    return acc
+
+
+def _has_func_content(x):
+    if isinstance(x, list):
+        if len(x) >= 3 and x[0] == "func" and isinstance(x[2], list):
+            s = json.dumps(x[2])
+            if '"sub"' in s or '"vals"' in s or '"k": "sel"' in s:
+                return True
+        return any(_has_func_content(v) for v in x)
+    if isinstance(x, dict):
+        return any(_has_func_content(v) for v in x.values())
+    return False
 
 
 def nontrivial_key(case):
-    return json.dumps(case, sort_keys=True)
+    if "vendor" in case:
+        return json.dumps(case, sort_keys=True)
+    spec = relabel_spec(case["spec"], case.get("relabel"))
+    if len(_classes(spec)) > 1 or _has_func_content(spec) or case.get("kw"):
+        return json.dumps([spec, case.get("kw")], sort_keys=True)
+    return None
 
 
 def histogram(cases):
     h = {}
     for c in cases:
+        if "vendor" in c:
+            h["vendor:" + c["vendor"]] = h.get("vendor:" + c["vendor"], 0) + 1
+            continue
         qf.shape(c["spec"], h)
+        key = "relabel" if c.get("relabel") else ("kwargs" if c.get("kw") else "as-labelled")
+        h[key] = h.get(key, 0) + 1
+        if len(_classes(c["spec"])) > 1 and not c.get("relabel"):
+            h["cross-class"] = h.get("cross-class", 0) + 1
+        if _has_func_content(c["spec"]):
+            h["function-arg-content"] = h.get("function-arg-content", 0) + 1
     return h
+
+
+def targeted_search(rng, broken, mism_cases):
+    """small statements of every class x every nesting position x every inner class (a forwarding slip in one get_sql shows
+    on the shortest statement that uses that clause), plus the sub-statements of disagreeing cases"""
+    out = []
+    for o in CLS_NAMES:
+        for i_ in CLS_NAMES:
+            inner = _sel(i_, "u", [["t", _F("b", "bb")]], where=["t", ["basic", "eq", _F("c"), ["vals", "s", None], None]])
+            f0 = ["field", "a", ["#0", [], None], None]
+            f1 = ["field", "b", ["#1", [], None], None]
+            base = {"k": "sel", "cls": o, "from": [["t", _T("t", "ta")]], "joins": [], "selects": [["t", ["field", "a", ["#0", [], None], "al"]]]}
+            out.append({"spec": dict(base, **{"from": [["t", _T("t")], ["q", dict(inner, alias="s")]]}), "relabel": None, "kw": None})
+            out.append({"spec": dict(base, joins=[["left", ["q", dict(inner, alias="s")], ["on", ["t", ["basic", "eq", f0, f1, None]]]]]),
+                        "relabel": None, "kw": None})
+            out.append({"spec": dict(base, joins=[["inner", ["t", _T("u", "ua")], ["on", ["t", ["basic", "eq", f0, f1, None]]]]],
+                                     having=["t", ["basic", "gt", f0, ["vals", "h", None], None]],
+                                     groupby=[["t", f0]], orderby=[[["t", f1], "asc"]]), "relabel": None, "kw": None})
+            out.append({"spec": dict(base, where=["in", f0, inner, False]), "relabel": None, "kw": None})
+            out.append({"spec": dict(base, where=["exists", inner, False]), "relabel": None, "kw": None})
+            out.append({"spec": dict(base, where=["cmp", "eq", f0, inner]), "relabel": None, "kw": None})
+            out.append({"spec": dict(base, selects=[["sub", inner], ["func", "F", [["sub", inner]], "fa"]]), "relabel": None, "kw": None})
+            out.append({"spec": dict(base, **{"with": [["cte", inner]], "from": [["a", "cte"]], "selects": [["t", ["star", None]]]}),
+                        "relabel": None, "kw": None})
+            out.append({"spec": {"k": "set", "base": _sel(o, "t", [["t", _F("a", "x")]]), "ops": [["union", inner]]}, "relabel": None, "kw": None})
+            out.append({"spec": {"k": "upd", "cls": o, "table": _T("t"), "sets": [["a", ["t", ["vals", "v", None]]]],
+                                 "where": ["in", _F("a"), inner, False]}, "relabel": None, "kw": None})
+    for c in mism_cases:
+        if "spec" in c:
+            out.append({"spec": c["spec"], "relabel": None, "kw": None})
+    g = DGen(rng, p_alias=0.5, p_subq=0.5, max_depth=2, hostile=0.0, inner_same_cls=0.2)
+    for _ in range(300):
+        out.append({"spec": g.any(), "relabel": None, "kw": None})
+    return out
